@@ -348,3 +348,156 @@ def grad_kleene_mp(ir, w, digits=40, max_iter=4000, eps_exp=-25):
         if inc < eps:
             return val
     return None
+
+
+# ---------------------------------------------------------------------------------------------
+# least solutions of x = A x + b over [0, inf]  (exact rationals), max-plus, Boolean
+
+def _sccs(n, succ):
+    """SCCs of a digraph on range(n) (succ[i] = set), listed dependencies-first (sinks first)."""
+    index, low, stack, on, comps, counter = {}, {}, [], set(), [], [0]
+
+    def visit(v):
+        index[v] = low[v] = counter[0]
+        counter[0] += 1
+        stack.append(v)
+        on.add(v)
+        for w in succ[v]:
+            if w not in index:
+                visit(w)
+                low[v] = min(low[v], low[w])
+            elif w in on:
+                low[v] = min(low[v], index[w])
+        if low[v] == index[v]:
+            comp = []
+            while True:
+                w = stack.pop()
+                on.discard(w)
+                comp.append(w)
+                if w == v:
+                    break
+            comps.append(comp)
+    for v in range(n):
+        if v not in index:
+            visit(v)
+    return comps
+
+
+def least_solution_real(A, b):
+    """Least solution in [0,inf]^n of x = A x + b; A (n x n), b (n) with Fraction / inf entries.  Exact."""
+    n = len(b)
+    pos = lambda v: v == INF or v > 0
+    succ = [set(j for j in range(n) if pos(A[i][j])) for i in range(n)]
+    # support: i with a path to some j with b_j > 0
+    supp = set(j for j in range(n) if pos(b[j]))
+    changed = True
+    while changed:
+        changed = False
+        for i in range(n):
+            if i not in supp and succ[i] & supp:
+                supp.add(i)
+                changed = True
+    x = [Fraction(0)] * n
+    comps = _sccs(n, [s & supp if i in supp else set() for i, s in enumerate(succ)])
+    for C in comps:
+        C = [i for i in C if i in supp]
+        if not C:
+            continue
+        Cs = set(C)
+        rhs = {}
+        for i in C:
+            t = b[i]
+            for j in succ[i] - Cs:
+                if j in supp:
+                    t = addx(t, mulx(A[i][j], x[j]))
+            rhs[i] = t
+        cyclic = len(C) > 1 or (C[0] in succ[C[0]])
+        if not cyclic:
+            x[C[0]] = rhs[C[0]]
+            continue
+        # irreducible block: everything in C is positive; any infinity or rho >= 1 makes all of C infinite
+        blow = any(rhs[i] == INF for i in C) or any(A[i][j] == INF for i in C for j in C if j in succ[i])
+        if not blow:
+            M = [[(Fraction(1) if i == j else Fraction(0)) - (A[i][j] if j in succ[i] else 0) for j in C] for i in C]
+            blow = not _leading_minors_positive(M)
+        if blow:
+            for i in C:
+                x[i] = INF
+            continue
+        sol = _gauss([row[:] for row in M], [rhs[i] for i in C])
+        for i, v in zip(C, sol):
+            x[i] = v
+    return x
+
+
+def _det(M):
+    n = len(M)
+    M = [row[:] for row in M]
+    d = Fraction(1)
+    for c in range(n):
+        p = next((r for r in range(c, n) if M[r][c] != 0), None)
+        if p is None:
+            return Fraction(0)
+        if p != c:
+            M[c], M[p] = M[p], M[c]
+            d = -d
+        d *= M[c][c]
+        for r in range(c + 1, n):
+            f = M[r][c] / M[c][c]
+            for k in range(c, n):
+                M[r][k] -= f * M[c][k]
+    return d
+
+
+def _leading_minors_positive(M):
+    return all(_det([row[:k] for row in M[:k]]) > 0 for k in range(1, len(M) + 1))
+
+
+def _gauss(M, v):
+    n = len(v)
+    for c in range(n):
+        p = next(r for r in range(c, n) if M[r][c] != 0)
+        M[c], M[p] = M[p], M[c]
+        v[c], v[p] = v[p], v[c]
+        for r in range(n):
+            if r != c and M[r][c] != 0:
+                f = M[r][c] / M[c][c]
+                for k in range(c, n):
+                    M[r][k] -= f * M[c][k]
+                v[r] -= f * v[c]
+    return [v[i] / M[i][i] for i in range(n)]
+
+
+def least_solution_maxplus(A, b):
+    """Least solution of x_i = max(b_i, max_j A_ij + x_j) over [-inf, inf] (floats).  A positive cycle that can
+    reach a finite b makes the entries depending on it +inf."""
+    n = len(b)
+    NEG = -math.inf
+
+    def plus(a, c):
+        if a == NEG or c == NEG:
+            return NEG
+        return a + c
+    x = list(b)
+    for _ in range(n + 1):
+        y = [max([b[i]] + [plus(A[i][j], x[j]) for j in range(n)]) for i in range(n)]
+        if y == x:
+            return x
+        x = y
+    for _ in range(n + 1):
+        y = [max([b[i]] + [plus(A[i][j], x[j]) for j in range(n)]) for i in range(n)]
+        x = [math.inf if (yi > xi + 1e-12 * max(1.0, abs(xi)) or yi == math.inf) else xi for xi, yi in zip(x, y)]
+    return x
+
+
+def least_solution_bool(A, b):
+    n = len(b)
+    x = list(b)
+    changed = True
+    while changed:
+        changed = False
+        for i in range(n):
+            if not x[i] and any(A[i][j] and x[j] for j in range(n)):
+                x[i] = True
+                changed = True
+    return x
